@@ -506,6 +506,11 @@ def build(prop, thorough, rnd):
     elif prop == "C04":
         roundtrips(("argparse",))
         sweep(("argparse",))
+        TK = D.kwargs_named_table()
+        for o in kind_opts("argparse", False):
+            for air in single:
+                if air["params"] and air["params"][0]["name"] == "p1" and air["params"][0]["typ"] in ("str", "int", "float", "bool"):
+                    add(TK, air, [("emit", "argparse", o), ("parse",)])
     elif prop == "C06":
         roundtrips(("class", "function", "method", "argparse"), view=True, files_every=(3 if thorough else 12))
     elif prop == "C08":
